@@ -170,6 +170,70 @@ def _eval_rgb(case):
                 n=n, tags=dict(kind='rgb', dtype=case.get('dtype', 'uint8'), cls=case.get('cls', 'random')))
 
 
+def _eval_rgbimg(case):
+    """an h x w x 3 image in one of the seven memory layouts: every colour conversion is pixelwise, so its result must
+    equal (bit-identical for integers, 1e-12 relative for floats) the result on the C-contiguous (n,1,3) column of the
+    same pixels - the form `_eval_rgb` ties to the standard. Also: integer `dtype=` requests keep white at (100,0,0)
+    and greys at a*=b*=0 (within the truncation of the cast), and no call modifies its input."""
+    c = _colors()
+    h, w = case['shape']
+    base = np.array(case['rgb'], dtype=np.float64).reshape(h, w, 3).astype(case.get('dtype', 'uint8'))
+    A = gen.relayout(base, case.get('layout', 'C'))
+    col = np.ascontiguousarray(base.reshape(h * w, 1, 3))
+    before = A.copy()
+    f = []
+    with warnings.catch_warnings():
+        warnings.simplefilter('ignore')
+        for fn in ('rgb2xyz', 'rgb2lab', 'rgb2grey', 'rgb2sepia', 'xyz2rgb', 'xyz2lab'):
+            g = getattr(c, fn)
+            src, ref_src = (A, col)
+            if fn.startswith('xyz'):
+                # feed XYZ values (computed from the column form) in the tested layout
+                xyz_col = np.asarray(c.rgb2xyz(col))
+                src = gen.relayout(xyz_col.reshape(h, w, 3), case.get('layout', 'C'))
+                ref_src = xyz_col
+            got = np.asarray(g(src))
+            ref = np.asarray(g(ref_src))
+            want_shape = (h, w) if fn == 'rgb2grey' else (h, w, 3)
+            if got.shape != want_shape:
+                f.append(dict(kind='property', key=f'{fn}:shape', detail=dict(shape=list(got.shape), layout=case.get('layout'))))
+                continue
+            ref = ref.reshape(want_shape)
+            if got.dtype.kind in 'iub':
+                ok = np.array_equal(got, ref)
+            else:
+                ok = bool(np.all(np.abs(got.astype(float) - ref.astype(float)) <= 1e-12 * (1 + np.abs(ref.astype(float)))))
+            if not ok:
+                bad = np.argwhere(got != ref)[0].tolist()
+                f.append(dict(kind='property', key=f'{fn}:layout-or-position-dependent', detail=dict(
+                    layout=case.get('layout'), at=bad, got=got[tuple(bad)].tolist() if got.ndim else float(got),
+                    pixelwise=ref[tuple(bad)].tolist())))
+        if not (np.array_equal(before, A) and before.dtype == A.dtype):
+            f.append(dict(kind='property', key='colors:input-modified', detail=dict(layout=case.get('layout'))))
+        dt = case.get('out')
+        if dt:
+            odt = np.dtype(dt)
+            T = base.reshape(-1, 3).astype(float)
+            white = np.all(T == 255, axis=1)
+            greyrow = (T[:, 0] == T[:, 1]) & (T[:, 1] == T[:, 2])
+            lab = np.asarray(c.rgb2lab(A, dtype=odt))
+            if lab.dtype != odt:
+                f.append(dict(kind='property', key='rgb2lab:dtype', detail=dict(requested=dt, got=str(lab.dtype))))
+            elif lab.shape == (h, w, 3):
+                L = lab.reshape(-1, 3).astype(float)
+                slack = 1.0 if odt.kind in 'iu' else (0.13 if odt == np.float16 else 0.02)
+                if white.any() and (abs(L[white][0][0] - 100.0) > slack or abs(L[white][0][1]) > slack or abs(L[white][0][2]) > slack):
+                    f.append(dict(kind='property', key='rgb2lab:white', detail=dict(dtype=dt, got=L[white][0].tolist(),
+                                                                                    want='L*=100, a*=b*=0')))
+                if greyrow.any():
+                    bad = np.nonzero((np.abs(L[greyrow][:, 1]) > slack) | (np.abs(L[greyrow][:, 2]) > slack))[0]
+                    if bad.size:
+                        f.append(dict(kind='property', key='rgb2lab:grey', detail=dict(
+                            dtype=dt, rgb=T[greyrow][int(bad[0])].tolist(), got=L[greyrow][int(bad[0])].tolist(), want='a*=b*=0')))
+    return dict(findings=f, nontrivial=bool(h > 1 and w > 1), sig=('rgbimg', json.dumps(case, sort_keys=True)),
+                tags=dict(kind='rgbimg', dtype=case.get('dtype', 'uint8'), layout=case.get('layout', 'C'), out=case.get('out', '-')))
+
+
 def _eval_ramp(case):
     """channel `ch` runs through `vals` (increasing); the other channels are fixed: every XYZ output and
     L* must be non-decreasing (a*, b* are differences and are not monotone)"""
@@ -291,6 +355,8 @@ def evaluate(cases):
             out.append(_eval_ramp(c))
         elif k == 'stretch':
             out.append(_eval_stretch(c))
+        elif k == 'rgbimg':
+            out.append(_eval_rgbimg(c))
         else:
             raise core.Infra(f'unknown case kind {k}')
     return out
@@ -400,6 +466,27 @@ def cases(rng, tier):
         c = dict(kind='rgb', rgb=tri, dtype=dtype, cls='random')
         if rng.random() < 0.3:
             c['out'] = rng.choice(['float32', 'float64'])
+        out.append(c)
+    # whole images (h, w > 1) in every memory layout, with integer / float dtype= requests for rgb2lab
+    ni = dict(quick=120, thorough=1500, search=500)[tier]
+    for i in range(ni):
+        h, w = rng.randint(1, 5), rng.randint(1, 5)
+        if i % 4:
+            h, w = max(h, 2), max(w, 2)
+        dtype = rng.choice(['uint8', 'uint8', 'uint16', 'int32', 'float32', 'float64'])
+        px = []
+        for _ in range(h * w):
+            r = rng.random()
+            if r < 0.15:
+                px += [255, 255, 255]
+            elif r < 0.4:
+                g = rng.randint(0, 255); px += [g, g, g]
+            else:
+                px += [rng.randint(0, 255) for _ in range(3)]
+        c = dict(kind='rgbimg', shape=[h, w], rgb=[float(v) for v in px] if dtype.startswith('float') else px, dtype=dtype,
+                 layout=gen.LAYOUTS[i % len(gen.LAYOUTS)])
+        if rng.random() < 0.5:
+            c['out'] = rng.choice(['uint8', 'int8', 'int16', 'int32', 'int64', 'float32', 'float64', 'float16'])
         out.append(c)
     ns = dict(quick=1500, thorough=15000, search=6000)[tier]
     for _ in range(ns):
